@@ -464,8 +464,14 @@ def run(ctx):
     if jh is not None and jh.hir:
         r = hirq.render(jh.hir["body"])
         cl = [c for c in jh.closures]
-        folded = any("ASCII_TO_UPPER" in hirq.render(x) or "ASCII_TO_LOWER" in hirq.render(x) for x in hirq.walk(jh.hir["body"]) if x.get("k") == "index")
-        slash = any(x.get("k") == "if" and "47" in hirq.render(x["c"]) or x.get("k") == "bin" and hirq.lit_int(x.get("r")) == 0x2F for x in hirq.walk(jh.hir["body"]))
+        # the fold may sit in a helper (a nested fn handed to `map`, a private fn of the module): follow fn references one level
+        refd = {c_.get("fn") for c_ in hirq.calls(jh.hir["body"])} | {x["res"]["def"] for x in hirq.walk(jh.hir["body"]) if x.get("k") == "path" and "def" in (x.get("res") or {}) and str(x["res"].get("dk", "")).startswith("Fn")}
+        jnodes = list(hirq.walk(jh.hir["body"]))
+        for g_ in mpq.fn_list:
+            if g_.hir and g_.kind != "Closure" and g_.path in refd and "::crypto::" in g_.path and g_.path != jh.path and not g_.path.endswith("::hashlittle2"):
+                jnodes += list(hirq.walk(g_.hir["body"]))
+        folded = any("ASCII_TO_UPPER" in hirq.render(x) or "ASCII_TO_LOWER" in hirq.render(x) for x in jnodes if x.get("k") == "index")
+        slash = any(x.get("k") == "if" and "47" in hirq.render(x["c"]) or x.get("k") == "bin" and hirq.lit_int(x.get("r")) == 0x2F for x in jnodes)
         if folded and slash:
             ctx.ok(R_jen, {"kernel": "jenkins_hashlittle2", "folds": "slash map + repo case table"})
         else:
